@@ -7,7 +7,9 @@ from .C09 import brute, impl_loops, loops_precondition
 from lapy import TriaMesh
 
 
-def impl_refine(v, t, it):
+def impl_refine(v, t, it, vdtype=None):
+    if vdtype is not None:
+        v = np.asarray(v).astype(vdtype)
     m = TriaMesh(v, t)
     m.refine_(it)
     return np.array(m.v, dtype=np.float64), np.array(m.t, dtype=np.int64), m
@@ -36,12 +38,17 @@ class Check(BaseCheck):
             if len(c["t"]) * 4 ** it > (700 if self.quick else 6000):
                 it = 1
             yield dict(v=c["v"], t=c["t"], it=it, name=c["name"])
+        # vertex arrays of integer dtype (voxel-grid meshes): midpoints are half-integers
+        ov, ot = gen.octahedron()
+        yield dict(v=np.round(ov * 3), t=ot, it=1, name="int-octahedron", vdtype="int32")
+        gv, gt = gen.grid(2, 2)
+        yield dict(v=gv, t=gt, it=2, name="int-grid", vdtype="int16")
 
     def correspond(self, drv, stats):
         fails = []
         for c in self.cases():
             v, t, it = c["v"], c["t"], c["it"]
-            res = core.call(impl_refine, v, t, it)
+            res = core.call(impl_refine, v, t, it, c.get("vdtype"))
             r = wire.Reply(drv.ask("refine %d %s %s" % (it, wire.verts(v), wire.elems(t))))
             stats.case(core.mesh_key(v, t, it), cls=["class:" + c["name"], "it:%d" % it], sample=dict(name=c["name"], nv=len(v), nt=len(t), it=it))
             if res[0] != "ok" or r.status != "ok":
@@ -66,14 +73,14 @@ class Check(BaseCheck):
         v = np.asarray(case["v"], float); t = np.asarray(case["t"], dtype=np.int64); it = int(case["it"])
         if len({frozenset(int(x) for x in tr) for tr in t}) < len(t):
             case = dict(case, input_class="duplicate-vertex-set")      # two triangles on the same three vertices (finding F14)
-        res = core.call(impl_refine, v, t, it)
+        res = core.call(impl_refine, v, t, it, case.get("vdtype"))
         if res[0] != "ok":
             return core.Violation("runs", "refine_ raised %s" % (res[1:],), case)
         v2, t2, m2 = res[1]
         # it successive single steps
         vs, ts = v, t
         for _ in range(it):
-            r1 = core.call(impl_refine, vs, ts, 1)
+            r1 = core.call(impl_refine, vs, ts, 1, case.get("vdtype") if _ == 0 else None)
             if r1[0] != "ok":
                 return core.Violation("runs", "single step raised", case)
             v1, t1, _ = r1[1]
